@@ -48,33 +48,41 @@ Definition opt_eqb (a b : option string) : bool :=
 Definition cfg_eqb (a b : cfg) : bool :=
   list_eqb (c2q a) (c2q b) && list_eqb (crot a) (crot b) && Bool.eqb (celim a) (celim b).
 Definition memc (c : cfg) (l : list cfg) : bool := existsb (cfg_eqb c) l.
-Fixpoint dedupe (l : list cfg) : list cfg :=
-  match l with [] => [] | c :: l' => let r := dedupe l' in if memc c r then r else c :: r end.
+Fixpoint dedupe (l : list (list string)) : list (list string) :=
+  match l with [] => [] | c :: l' => let r := dedupe l' in if existsb (list_eqb c) r then r else c :: r end.
 
 (* the name under which the generic instance of a kind is dispatched (X -> RX, ...) *)
 Definition dispatched (k : kd) : string :=
   match pauli (generic (fst k) (snd k) 0) with Ok p => gname (snd p) | Error => fst k end.
+(* the part of basis_2q a gate dispatched as n can observe: itself, the gate whose pass runs, ISWAP if n is SWAP *)
+Definition canon2q (q : list string) (n : string) : list string :=
+  filter (fun x => (String.eqb x n && mem n q)
+                   || match find (fun u => mem u q) basis_2q_order with Some u => String.eqb x u | None => false end
+                   || (String.eqb n "SWAP" && String.eqb x "ISWAP" && mem "ISWAP" q)) basis_2q_valid.
 Definition canon (c : cfg) (k : kd) : cfg :=
+  Cfg (canon2q (c2q c) (dispatched k)) (if celim c then crot c else []) (celim c).
+Definition rotviews : list (bool * list string) := (false, []) :: map (fun r => (true, r)) (sublists rot_names).
+Definition canons (k : kd) : list cfg :=
   let n := dispatched k in
-  Cfg (filter (fun x => (String.eqb x n && mem n (c2q c))
-                        || match first_2q c with Some u => String.eqb x u | None => false end
-                        || (String.eqb n "SWAP" && String.eqb x "ISWAP" && mem "ISWAP" (c2q c))) basis_2q_valid)
-      (if celim c then crot c else []) (celim c).
+  flat_map (fun q => map (fun rv => Cfg q (snd rv) (fst rv)) rotviews)
+           (dedupe (map (fun q => canon2q q n) (sublists basis_2q_valid))).
 (* c and c' are indistinguishable for a gate dispatched under the name n *)
 Definition agree (c c' : cfg) (n : string) : bool :=
   Bool.eqb (mem n (c2q c)) (mem n (c2q c')) &&
   Bool.eqb (String.eqb n "SWAP" && mem "ISWAP" (c2q c)) (String.eqb n "SWAP" && mem "ISWAP" (c2q c')) &&
   opt_eqb (first_2q c) (first_2q c') && Bool.eqb (celim c) (celim c') && (negb (celim c) || list_eqb (crot c) (crot c')).
 
-Definition canons (k : kd) : list cfg := dedupe (map (fun c => canon c k) all_cfgs).
-Definition obl_ok (k : kd) : bool := forallb (fun c => check_sem c k) (canons k).
-Definition obls_ok (ks : list kd) : bool := forallb obl_ok ks.
+(* the semantic obligations of a list of kinds: every canonical configuration of every kind *)
+Definition obls_ok (ks : list kd) : bool := forallb (fun k => forallb (fun c => check_sem c k) (canons k)) ks.
+(* every configuration of l has its canonical form (for kind k) in cs *)
+Definition covered (l : list cfg) (k : kd) (cs : list cfg) : bool := forallb (fun c => memc (canon c k) cs) l.
+Definition cover_all (l : list cfg) (ks : list kd) : bool := forallb (fun k => covered l k (canons k)) ks.
 
-(* the kinds, split for parallel compilation: the two three-qubit kinds, the two-qubit kinds, the rest *)
+(* the kinds, split for parallel compilation *)
 Definition kslice (i : nat) : list kd :=
   match i with
-  | 0 => filter (fun k => String.eqb (fst k) "TOFFOLI") kinds
-  | 1 => filter (fun k => String.eqb (fst k) "FREDKIN") kinds
-  | 2 => filter (fun k => Nat.eqb (kqubits (snd k)) 2) kinds
-  | _ => filter (fun k => Nat.ltb (kqubits (snd k)) 2) kinds
+  | 0 => firstn 11 kinds
+  | 1 => firstn 6 (skipn 11 kinds)
+  | 2 => firstn 1 (skipn 17 kinds)
+  | _ => skipn 18 kinds
   end%nat.
